@@ -358,6 +358,20 @@ impl Check for C11 {
                 cases.push((l, t.into_bytes()));
             }
         }
+        // a statement opened by some keyword where the text is cut at a token boundary, never closed by `;` (what a
+        // reader that skips or collects "until the semicolon" meets at end of input); two keywords per sampled boundary
+        const OPENERS: [&str; 40] = ["PROPERTY", "FOREIGN", "ORIGIN", "SIZE", "SYMMETRY", "SITE", "CLASS", "SOURCE", "EEQ", "DENSITY", "LAYER", "RECT", "POLYGON", "PATH", "VIA", "PORT", "OBS", "PIN", "DIRECTION", "USE", "SHAPE", "ANTENNAMODEL", "ANTENNAGATEAREA", "ANTENNADIFFAREA", "TAPERRULE", "NETEXPR", "SUPPLYSENSITIVITY", "GROUNDSENSITIVITY", "MUSTJOIN", "UNITS", "DATABASE", "VERSION", "BUSBITCHARS", "DIVIDERCHAR", "NAMESCASESENSITIVE", "MANUFACTURINGGRID", "PROPERTYDEFINITIONS", "BEGINEXT", "FIXEDMASK", "VIARULE"];
+        for i in 0..toks.len() {
+            if !exhaustive && wt.draw(keep_one_in) != 0 {
+                continue;
+            }
+            let at = toks[i].0;
+            for _ in 0..2 {
+                let kw = *wt.pick(&OPENERS);
+                let tail = *wt.pick(&["", " p", " p 1", " p 1 2", " \"v", " p \"v\""]);
+                cases.push((format!("cut-before-token#{}+unclosed({}{})", i, kw, tail), format!("{}{}{}", &text[..at], kw, tail).into_bytes()));
+            }
+        }
         // end-of-input / end-of-line injections and seeded combinations
         for n in NONASCII.iter() {
             cases.push((format!("append-at-end({})", n), format!("{}{}", text, n).into_bytes()));
